@@ -341,6 +341,15 @@ def _refill_discipline(check, rule, m, g):
       continue
     # does this source actually feed a refill (data or control)?
     names = {t.id for t in getattr(src.ast, 'targets', []) if isinstance(t, ast.Name)}
+    grew = bool(names)
+    while grew:             # names computed from them, transitively
+      grew = False
+      for st in body_stmts:
+        if isinstance(st, ast.Assign) and names & {x.id for x in ast.walk(st.value) if isinstance(x, ast.Name)}:
+          for t in st.targets:
+            if isinstance(t, ast.Name) and t.id not in names:
+              names.add(t.id)
+              grew = True
     used = False
     for s in refills:
       if expr_tainted(s.value) and (names & {x.id for x in ast.walk(s.value) if isinstance(x, ast.Name)} or not names):
